@@ -508,8 +508,9 @@ class Interp:
     def op_revive(self, op):
         s = op[1]
         if (s in self.handlers or s in self.eids or s in self.limbo
-                or s in self.limbo_unreg):
-            return 'skip'
+                or s in self.limbo_unreg or s in self.die_later
+                or s in self.must_die or s in self.held):
+            return 'skip'       # the previous instance is still being tracked
         self.make(s)
 
     # ---- dispatch
